@@ -59,10 +59,10 @@ def llm_fn_for(path):
 
 
 def explore_world(task):
-    version, order, dialog, exceptions, turns = task[:5]
-    if version == "2.x":
+    if str(task[0]).startswith("2.x"):
         from vf.props import c01_v2
         return c01_v2.explore_world(task)
+    version, order, dialog, exceptions, turns = task[:5]
     res = {"worlds": 1, "turns": 0, "conversations": 0, "rejections": 0, "rewrites": 0, "llm_calls": 0,
            "rail_calls": 0, "viol": []}
     param = len(task) > 5 and task[5] == "param"
@@ -242,7 +242,7 @@ def run(rep, tier):
 
 
 def replay(rp):
-    if rp.get("version") == "2.x":
+    if str(rp.get("version")).startswith("2.x"):
         from vf.props import c01_v2
         return c01_v2.replay(rp)
     world = rw.v1_world(in_order=tuple(rp["order"]), out_order=("out1",), dialog=(rp["dialog"] is True), exceptions=rp["exceptions"], param_rails=rp.get("param_rails", False),
